@@ -8,6 +8,7 @@ import (
 	"fmt"
 	"os"
 	"strconv"
+	"strings"
 	"sync"
 	"sync/atomic"
 	"testing"
@@ -608,6 +609,59 @@ func TestC06FileCleanups(t *testing.T) {
 		mu.Unlock()
 		o.Count("file-run-iterations", kit.Bucket(int64(len(bodyRuns))))
 		o.Case("cleanups_once_ok", []string{kit.Ints(bodyRuns), kit.Ints(cleanupRuns), kit.I(e)}, "T", "file-cleanups", "nt")
+	}
+}
+
+// A users stage followed by a rate stage whose iterations are still executing when triggering
+// ends: the setup cleanups run only after every started iteration has finished (the completion
+// timeout is far away), and the run returns after them.
+func TestC06FileTeardown(t *testing.T) {
+	o := kit.Get()
+	defer o.Close()
+	r := kit.NewRand(kit.Seed() + 68)
+	dir := t.TempDir()
+	for i := 0; i < kit.N(3, 16); i++ {
+		var started, finished atomic.Int64
+		var atTeardown atomic.Int64
+		atTeardown.Store(-1)
+		body := time.Duration(r.Range(120, 260)) * time.Millisecond
+		scenario := func(st *f1testing.T) f1testing.RunFn {
+			st.Cleanup(func() { atTeardown.Store(started.Load() - finished.Load()) })
+			return func(*f1testing.T) {
+				started.Add(1)
+				time.Sleep(body)
+				finished.Add(1)
+			}
+		}
+		first := "  - duration: 80ms\n    mode: users\n    concurrency: 2\n"
+		if r.Chance(30) {
+			first = "  - duration: 80ms\n    mode: constant\n    rate: 1/20ms\n"
+		}
+		yaml := "scenario: verifscenario\ndefault:\n  jitter: 0\n  distribution: none\n  concurrency: 2\n" +
+			"limits:\n  max-duration: 5s\n  concurrency: 6\n  max-iterations: 0\n  ignore-dropped: true\nstages:\n" + first +
+			"  - duration: " + strconv.Itoa(int(r.Range(150, 300))) + "ms\n    mode: constant\n    rate: 1/40ms\n"
+		if r.Bool() {
+			yaml += "  - duration: 100ms\n    mode: users\n    concurrency: 1\n"
+		}
+		path := dir + "/c06t_" + strconv.Itoa(i) + ".yaml"
+		_ = os.WriteFile(path, []byte(yaml), 0o600)
+		out, hung, dump := runkit.DoTimeout(runkit.Config{Mode: "file", FileArg: path, Scenario: scenario, Ctx: context.Background(),
+			Opts: options.RunOptions{}}, 60*time.Second)
+		if hung {
+			o.Fail("run-hung", "file run did not return: "+dump[:min(len(dump), 2000)])
+			continue
+		}
+		if out.Err != nil {
+			o.Fail("run-error", fmt.Sprintf("file run failed: %v", out.Err))
+			continue
+		}
+		unfinished := started.Load() - finished.Load()
+		if atTeardown.Load() != 0 || unfinished != 0 {
+			o.Fail("teardown-before-iterations-finished", fmt.Sprintf("config file (first stage %q then a constant stage, iterations of %s): the setup cleanup ran while %d started iteration(s) had not finished; Run.Do returned with %d of %d iterations unfinished",
+				strings.Fields(first)[4], body, atTeardown.Load(), unfinished, started.Load()))
+		}
+		o.Count("file-run-iterations", kit.Bucket(started.Load()))
+		o.Case("cleanups_once_ok", []string{kit.Ints([]int64{1}), kit.Ints([]int64{1}), kit.I(max(atTeardown.Load(), 0) + unfinished)}, "T", "file-teardown", "nt")
 	}
 }
 
